@@ -297,9 +297,26 @@ class Directive:
         self.contract = ''
 
 
+def expand(path, seen=None):
+    """template text with `//@@ include <name>` lines replaced by units/inc/<name>.rs (recursively, once each)"""
+    seen = seen if seen is not None else set()
+    out = []
+    for ln in open(path).read().split('\n'):
+        st = ln.strip()
+        if st.startswith('//@@ include '):
+            name = st.split()[2]
+            if name in seen:
+                continue
+            seen.add(name)
+            out.append(expand(os.path.join(VERIF, 'units', 'inc', name + '.rs'), seen))
+        else:
+            out.append(ln)
+    return '\n'.join(out)
+
+
 def parse_template(path):
     """-> list of ('text', str) | ('dir', Directive)"""
-    lines = open(path).read().split('\n')
+    lines = expand(path).split('\n')
     out, buf = [], []
     i = 0
     while i < len(lines):
@@ -335,6 +352,9 @@ def parse_template(path):
                         raise GenError('%s:%d empty directive' % (path, i + 1))
                     if w[0] == 'rw':
                         cur_rw = {'rule': w[1], 'ordinal': int(w[2][1:]) if len(w) > 2 and w[2].startswith('#') else None}
+                        mode = 'rw_old'
+                    elif w[0] == 'closure':
+                        cur_rw = {'rule': 'R5c', 'ordinal': int(w[1][1:]) if len(w) > 1 and w[1].startswith('#') else None}
                         mode = 'rw_old'
                     elif w[0] == '=>':
                         mode = 'rw_new'
@@ -408,10 +428,38 @@ def apply_rws(text, d, log):
     for rw in d.rws:
         a, b = find_span(text, rw['old'], rw['ordinal'], 'rewrite site (%s)' % rw['rule'])
         new = rw['new'].strip('\n')
+        if rw['rule'] == 'R5c':
+            # closure header annotation: wrap the (verbatim) closure body in a block after the new header
+            stop = closure_body_end(text, b)
+            body = text[b:stop]
+            if '@@BODY' in new:
+                hdr, tail = new.strip().split('@@BODY')
+                log.append(('R5c', strip_ws(text[a:b]), strip_ws(hdr)))
+                text = text[:a] + hdr + ' ' + body.strip() + ' ' + tail + body[len(body.rstrip()):] + text[stop:]
+            else:
+                log.append(('R5c', strip_ws(text[a:b]), strip_ws(new.strip() + ' {')))
+                text = text[:a] + new.strip() + ' {' + body.rstrip() + ' }' + body[len(body.rstrip()):] + text[stop:]
+            continue
         # keep indentation of replaced text's first line for multi-line replacements
         log.append((rw['rule'], strip_ws(text[a:b]), strip_ws(new)))
         text = text[:a] + new.strip() + text[b:]
     return text
+
+
+def closure_body_end(text, start):
+    """offset where the closure body expression starting at `start` ends: the first `,` `)` `]` `}` `;` at depth 0"""
+    depth = 0
+    for tk in sig(lex(text[start:])):
+        if tk.kind == 'punct':
+            if tk.text in '([{':
+                depth += 1
+            elif tk.text in ')]}':
+                if depth == 0:
+                    return start + tk.start
+                depth -= 1
+            elif tk.text in ',;' and depth == 0:
+                return start + tk.start
+    raise GenError('closure body not delimited')
 
 
 GHOST_MARK = ' // vp:ghost'
@@ -517,7 +565,29 @@ def erasure_check(gen_text, meta):
     lines = [l for l in gen_text.split('\n') if not l.rstrip().endswith(GHOST_MARK.strip())]
     t = '\n'.join(lines)
     canon = strip_ws(t)
-    for rule, old, new in reversed(meta['rules']):
+    for ent in reversed(meta['rules']):
+        rule, old, new = ent[0], ent[1], ent[2]
+        if rule == 'R5c':
+            n = new
+            k = canon.find(n)
+            if k < 0:
+                return False, 'cannot invert R5c: %s' % new[:60]
+            toks = canon[k + len(n):].split(' ')
+            depth, pos = 0, k + len(n)
+            end = None
+            for tk in toks:
+                if tk == '{': depth += 1
+                elif tk == '}':
+                    if depth == 0:
+                        end = pos
+                        break
+                    depth -= 1
+                pos += len(tk) + 1
+            if end is None:
+                return False, 'cannot invert R5c (unbalanced)'
+            inner = canon[k + len(n):end].strip()
+            canon = re.sub(r' +', ' ', canon[:k] + old + ' ' + inner + ' ' + canon[end + 1:].lstrip())
+            continue
         if rule in ('R1', 'R5', 'R8', 'R2', 'R3', 'R7'):
             n = strip_ws(new)
             if n and n in canon:
